@@ -114,6 +114,28 @@ fn main() {
                 }
             }
         }
+        "iterate" => {
+            // two flushed records + one unsynced one; iteration from the first (seq) or second record
+            let (o1, _) = w.append(&[1], &d1).unwrap();
+            let (o2, _) = w.append(&[2], &d2).unwrap();
+            w.sync().unwrap();
+            let (o3, _) = w.append(&[3], &d1).unwrap();
+            w.flush_writer().unwrap();
+            let begin = if seq { o2 } else { o1 };
+            let want: Vec<(u64, u8)> = if seq { vec![(o2, 2)] } else { vec![(o1, 1), (o2, 2)] };
+            let mut got: Vec<(u64, u8)> = Vec::new();
+            let mut it = r.iter(begin);
+            for _ in 0..6 {
+                match it.next_record() {
+                    Ok(Some(rec)) => got.push((rec.offset, rec.header[0])),
+                    Ok(None) => break,
+                    Err(e) => { bad = Some(format!("iteration over flushed records failed: {e}")); break }
+                }
+            }
+            if bad.is_none() && got != want {
+                bad = Some(format!("iteration from {begin} yielded (offset, header) {:?}, flushed records are {:?} (unsynced record at {o3})", got, want));
+            }
+        }
         other => {
             eprintln!("unknown scenario {other}");
             std::process::exit(2);
